@@ -23,16 +23,24 @@ KwoClass(s) == IF Len(s.kwo) = 0 THEN "none"
                ELSE (IF s.kwo[1].d THEN "k1=d" ELSE "k1") \o "," \o (IF s.kwo[2].d THEN "k2=d" ELSE "k2")
 KwDefaultsConsulted(s, c) == \E i \in 1..Len(s.kwo) : s.kwo[i].name \notin KwGiven(c)
 Part(s, c) == "kwonly=" \o KwoClass(s) \o ";kwdefaults=" \o (IF KwDefaultsConsulted(s, c) THEN "consulted" ELSE "unused")
-Expect(s, c, form) ==
+\* "z" stands for ANY name that is not a parameter of the callee.  Keywords are matched against parameter names only:
+\* the names of the callee's own *va / **kw variables and of a local variable of its body ("loc"; every generated body
+\* has one) are not parameter names, so each call spells z in one of these four ways and must bind exactly as if it
+\* were spelled z (found missing by an independently seeded change: keyword matching over all of co_varnames).
+ZSpellings == <<"z", "va", "kw", "loc">>
+Spell(n, zs) == IF n = "z" THEN zs ELSE n
+Expect(s, c, form, zs) ==
   LET r == BindD(s, c) ps == ParamSeq(s) IN
   IF r.ok THEN [ok |-> TRUE, recv |-> Receiver(form), vals |-> [i \in 1..Len(ps) |-> r.vals[ps[i]]], va |-> r.va,
-                kw |-> SetToSeq(r.kw), kinds |-> <<>>, part |-> Part(s, c)]
+                kw |-> SetToSeq({ <<Spell(p[1], zs), p[2]>> : p \in r.kw }), kinds |-> <<>>, part |-> Part(s, c)]
   ELSE [ok |-> FALSE, recv |-> "", vals |-> <<>>, va |-> <<>>, kw |-> <<>>, kinds |-> SetToSeq(ErrKinds(s, c)), part |-> Part(s, c)]
 Record(unit) ==
   LET s == SigSeq[unit.si] IN
   [id |-> unit.id, si |-> unit.si, form |-> unit.form, sig |-> s, params |-> ParamSeq(s),
    defaults |-> [i \in 1..Len(ParamSeq(s)) |-> HasDefault(s, ParamSeq(s)[i])],
-   cases |-> [j \in 1..Len(unit.cis) |-> [ci |-> unit.cis[j], e |-> Expect(s, CallSeq[unit.cis[j]], unit.form)]]]
+   cases |-> [j \in 1..Len(unit.cis) |->
+                LET zs == ZSpellings[((unit.id + unit.cis[j]) % 4) + 1] IN
+                [ci |-> unit.cis[j], zs |-> zs, e |-> Expect(s, CallSeq[unit.cis[j]], unit.form, zs)]]]
 Init == u \in 1..Len(Units) /\ v = "todo"
 Next == v = "todo" /\ UNCHANGED u /\ PrintT(ToJson(Record(Units[u]))) /\ v' = "done"
 Spec == Init /\ [][Next]_<<u, v>>
